@@ -1,5 +1,9 @@
 #!/bin/sh
-# reseed_all.sh [jobs] : re-run demo + checks for every kept seeded change at /repo's current HEAD
+# reseed_all.sh [jobs] [names...] : re-run demo + checks for kept seeded changes at /repo's current HEAD
 cd "$(dirname "$0")/.."
-jobs=${1:-3}
-ls seeded | xargs -P $jobs -I{} sh -c 'p=$(python3 -c "import json;print(json.load(open(\"seeded/{}/meta.json\"))[\"property\"])"); python3 tools/seed.py $p seeded/{} {} --checks $p --reuse-suite 2>&1 | head -1 | cut -c1-200'
+jobs=${1:-3}; shift
+names=${@:-$(ls seeded)}
+echo $names | tr ' ' '\n' | xargs -P $jobs -I{} sh -c 'set -- $(python3 -c "
+import json
+m=json.load(open(\"seeded/{}/meta.json\"))
+print(m[\"property\"], \",\".join(r[\"cmd\"].split()[1] for r in m[\"checks_run\"]))"); python3 tools/seed.py $1 seeded/{} {} --checks $2 --reuse-suite 2>&1 | head -1 | cut -c1-200'
